@@ -789,6 +789,13 @@ func (w *WalletManager) NewAddress(addrClass uint16) (string, error) {
 		return nil
 	})
 	if err != nil {
+		// NextAddresses has already added the address to the cached keystore while the
+		// transaction was open: reload the keystore from the store, which was not changed
+		w.ksmgr.RemoveCachedKeystore(am.Name())
+		mwdb.View(w.db, func(rtx mwdb.ReadTransaction) error {
+			w.ksmgr.UpdateManagedKeystores(rtx, am.Name())
+			return nil
+		})
 		return "", err
 	}
 	return address, nil
